@@ -116,6 +116,10 @@ def lifecycle_descs(tier, seed, hib_values=(False, True), objs=("twofunnel", "pl
         for hib in hib_values:
             out.append(("bounded", dict(engines=list(eng), gens=1, Mh=6, hib=hib, seed=s + j, choices="GLS", lsc=[None, "allchildren", {"kind": "metaepoch", "m": 1 + j % 2}],
                                         gsc={"kind": "horizon"}, maximize=bool(j % 2), obj="twofunnel", sprout={"kind": "scripted", "L": 2, "default": 1})))
+    # more than ten children of one parent (ids with two digits), no deviations
+    for j, eng in enumerate([("SEA", "DE"), ("DE", "SEA", "SHADE"), ("LHS", "CMAf")]):
+        out.append(("bounded", dict(engines=list(eng), gens=1, Mh=13, hib=bool(j % 2), seed=s + j, choices="", lsc=[None] + [{"kind": "metaepoch", "m": 1}] * (len(eng) - 1),
+                                    gsc={"kind": "horizon"}, maximize=bool(j % 2), obj="twofunnel", sprout={"kind": "scripted", "L": 1, "default": 1})))
     # (kept last: worlds of other dimensions must not be the first thing a worker process sees)
     # one-dimensional and five-dimensional problems; MWEA election group as large as the population
     for j, (eng, box) in enumerate([(("SEA", "DE"), "B_1d"), (("DE", "SHADE", "LOC"), "B_1d"), (("LHS", "GA"), "B_1d"), (("SEA", "CMAf"), "B_5d"), (("SHADE", "CMAw", "DE"), "B_5d"),
